@@ -433,10 +433,10 @@ def blocking_in_arm(fx, ex, region):
     return found
 
 
-def rule_noblock(fx, rep, ex, arms):
+def rule_noblock(fx, rep, ex, arms, names=("IsReady", "Quit", "Position", "Debug", "PonderHit", "SetOption", "Uci"), rid="C05-NOBLOCK"):
     ok = True
     n = 0
-    for name in ("IsReady", "Quit", "Position", "Debug", "PonderHit", "SetOption", "Uci"):
+    for name in names:
         if name not in arms:
             raise_missing(f"UciCommand::{name} arm not found")
         entry, region = arms[name]
@@ -444,12 +444,12 @@ def rule_noblock(fx, rep, ex, arms):
         found = blocking_in_arm(fx, ex, region)
         good = not found
         rep.obligation(good)
-        rep.sample({"rule": "C05-NOBLOCK", "arm": name, "blocking_calls": found})
+        rep.sample({"rule": rid, "arm": name, "blocking_calls": found})
         if not good:
             ok = False
-            rep.violation("C05-NOBLOCK", f"C05-NOBLOCK/{name}", f"the `{name}` arm can reach blocking primitive(s) {found[:3]}: with a search running the input thread stops answering",
+            rep.violation(rid, f"{rid}/{name}", f"the `{name}` arm can reach blocking primitive(s) {found[:3]}: with a search running the input thread stops answering",
                           {"fn": ex.name, "file": ex.file, "line": found[0][2]})
-    rep.rule("C05-NOBLOCK", n, 7, ok, "arms that must never block")
+    rep.rule(rid, n, len(names), ok, "arms that must never block")
 
 
 U = "src/engine/uci/mod.rs"
